@@ -27,6 +27,7 @@ type WorkerOut struct {
 	Index int64      `json:"i,omitempty"`     // its index
 	S     interface{} `json:"s,omitempty"`    // a sample
 	D     []string   `json:"d,omitempty"`     // distinct keys seen in this batch
+	Hang  *int64     `json:"hang,omitempty"`  // the worker gave up on this index (per-input deadline) and exited
 	Done  bool       `json:"done,omitempty"`  // final line
 	Evals int64      `json:"evals,omitempty"`
 	Skips map[string]int64 `json:"skips,omitempty"`
@@ -34,6 +35,8 @@ type WorkerOut struct {
 
 // WorkerEmit is used inside a worker to report results.
 type WorkerEmit struct {
+	cur      atomic.Int64
+	curStart atomic.Int64
 	w     *bufio.Writer
 	mu    sync.Mutex
 	dist  map[string]bool
@@ -43,7 +46,9 @@ type WorkerEmit struct {
 }
 
 func NewWorkerEmit() *WorkerEmit {
-	return &WorkerEmit{w: bufio.NewWriterSize(os.Stdout, 1<<16), dist: map[string]bool{}, skips: map[string]int64{}}
+	e := &WorkerEmit{w: bufio.NewWriterSize(os.Stdout, 1<<16), dist: map[string]bool{}, skips: map[string]int64{}}
+	e.cur.Store(-1)
+	return e
 }
 
 func (e *WorkerEmit) line(o WorkerOut) {
@@ -71,7 +76,34 @@ func (e *WorkerEmit) Sample(s interface{}) {
 		e.line(WorkerOut{S: s})
 	}
 }
+// Watch arms a per-input deadline: call Begin(i) before each input. If one input runs longer than d the
+// worker reports {"hang": i} and exits, so the driver can record it and continue behind it.
+func (e *WorkerEmit) Watch(d time.Duration) {
+	go func() {
+		for {
+			time.Sleep(d / 4)
+			cur := e.cur.Load()
+			if cur < 0 {
+				continue
+			}
+			if time.Since(time.Unix(0, e.curStart.Load())) > d {
+				e.mu.Lock()
+				e.line(WorkerOut{Hang: &cur})
+				e.w.Flush()
+				os.Exit(3)
+			}
+		}
+	}()
+}
+
+// Begin marks the start of input i (for Watch).
+func (e *WorkerEmit) Begin(i int64) {
+	e.curStart.Store(time.Now().UnixNano())
+	e.cur.Store(i)
+}
+
 func (e *WorkerEmit) Finish() {
+	e.cur.Store(-1)
 	var ks []string
 	for k := range e.dist {
 		ks = append(ks, k)
@@ -159,9 +191,12 @@ func (r *Run) RunWorkers(sp *WorkerSpace) {
 	type job struct{ lo, hi int64 }
 	jobs := make(chan job, 64)
 	var wg sync.WaitGroup
+	var hangs atomic.Int64
 	absorb := func(res batchResult) {
 		for _, o := range res.outs {
 			switch {
+			case o.Hang != nil:
+				// handled by the caller (hungAt)
 			case o.V != nil:
 				r.Violate(*o.V)
 			case o.S != nil:
@@ -242,16 +277,43 @@ func (r *Run) RunWorkers(sp *WorkerSpace) {
 			}
 		}
 	}
+	hungAt := func(res batchResult) int64 {
+		for _, o := range res.outs {
+			if o.Hang != nil {
+				return *o.Hang
+			}
+		}
+		return -1
+	}
 	for w := 0; w < Workers(); w++ {
 		wg.Add(1)
 		go func() {
 			defer wg.Done()
 			for j := range jobs {
-				res := runBatch(sp, j.lo, j.hi, sp.Timeout)
-				if res.ok {
-					absorb(res)
-				} else {
-					isolate(j.lo, j.hi, res)
+				lo := j.lo
+				for lo < j.hi {
+					res := runBatch(sp, lo, j.hi, sp.Timeout)
+					if res.ok {
+						absorb(res)
+						break
+					}
+					if h := hungAt(res); h >= lo {
+						// the worker gave up on one input: record it, keep what it did before, continue behind it
+						absorb(res)
+						var d interface{}
+						if sp.Describe != nil {
+							d = sp.Describe(h)
+						}
+						if hangs.Add(1) <= 20 {
+							r.Violate(Violation{Sig: "hang-" + sp.Name, What: fmt.Sprintf("[%s #%d] this input alone exceeds the per-input deadline (the call does not return)", sp.Name, h),
+								Case: map[string]interface{}{"space": sp.Name, "index": h, "input": d, "reason": "per-input deadline exceeded"}})
+						}
+						r.Eval()
+						lo = h + 1
+						continue
+					}
+					isolate(lo, j.hi, res)
+					break
 				}
 			}
 		}()
